@@ -453,6 +453,7 @@ def check(PROP, tier, seed, replay):
     if PROP == "C10" and not replay:
         cov["device_teardown"] = device_teardown_probe(v)
         cov["device_close"] = device_close_probe(v)
+        cov["parked_dialers"] = parked_dialers_probe(v)
     core.write_evidence(PROP, tier, seed, "proof", cov,
                         ["the mock transport honours the transport contract of the real transports (teardown of real descriptors is not exercised)",
                          "termination of close is proved for the model and observed (exact deadlock detection) for the explored schedules of the code",
@@ -538,4 +539,37 @@ def device_close_probe(v):
     if rc != 0 or seen != set(kinds):
         v.violation("devclose-crash", {"kind": "device close scenario crashed, hung or did not complete (REAL, inproc)",
                     "ops": [k for k in kinds if k not in seen][:1] or kinds, "rc": rc, "stderr": err[-2000:], "output": lines[-5:]})
+    return out
+
+
+def parked_dialers_probe(v):
+    """C10 (REAL, inproc): synchronous dials PARKED on a listener whose accept loop is held inside an ADD_PRE
+    callback; the listener or its socket is closed.  The close must return and every parked dial must return."""
+    import subprocess, re
+    try:
+        exe = build.harness("r_park", ["r_park.c"])
+    except build.BuildError as e:
+        v.violation("build-rpark", {"kind": "build", "error": str(e), "log": e.log[-2000:]}, no_input=True)
+        return {"built": False}
+    out = {}
+    for args in (["1", "listener"], ["2", "listener"], ["4", "listener"], ["3", "socket"]):
+        try:
+            p = subprocess.run([exe] + args, capture_output=True, text=True, env=build.env(), timeout=60)
+            line, rc, err = (p.stdout.strip().splitlines() or [""])[-1], p.returncode, p.stderr
+        except subprocess.TimeoutExpired:
+            line, rc, err = "", -999, "timeout"
+        m = re.match(r"park n=(\d+) how=(\w+) parked=(\d+) close_done=(\d) done=(\d+) results=(\S+)$", line)
+        key = " ".join(args)
+        if rc != 0 or not m:
+            out[key] = f"rc={rc} {line[:80]}"
+            v.violation(f"park-crash-{args[0]}{args[1][0]}", {"kind": "parked-dialers scenario crashed or did not report (REAL, inproc)", "ops": ["r_park " + key],
+                        "rc": rc, "stderr": err[-2000:], "output": line})
+            continue
+        n, parked, cdone, done = int(m.group(1)), int(m.group(3)), int(m.group(4)), int(m.group(5))
+        out[key] = f"parked={parked} close_done={cdone} done={done}/{n} results={m.group(6)}"
+        if cdone != 1 or done != n:
+            v.violation(f"park-{args[0]}{args[1][0]}", {"kind": "close of an inproc listener (or its socket) with dialers parked on it: " +
+                        ("the close did not return" if cdone != 1 else f"{n - done} of {n} parked synchronous dials never returned"),
+                        "ops": ["r_park " + key], "harness": "harness/r_park.c", "observed": line,
+                        "expected": f"close_done=1 done={n} (every parked dial returns, e.g. with NNG_ECONNREFUSED)"})
     return out
